@@ -50,6 +50,19 @@ def stArith {α : Type} (c : Codec α) (add mul sub div : α → α → α) (op 
   | "quot", [a, b] => emit2 (sOut c.s (Stream.binaryPass div (← need (pOut c.p a)) (← need (pOut c.p b))))
   | _, _ => stGeneric c op args
 
+/-- n-ary sum/product over Quantity payloads: the model's `collect`, then the `+=` / `*=` fold with the
+(panicking) Quantity operators -/
+def stNaryQ (chk : Bool) (mulOp : Bool) (ins : List (Output (Quantity F))) : M Unit := do
+  match Stream.collect ins with
+  | .error e => emit2 (sErr e)
+  | .ok [] => emit2 "N"
+  | .ok (d :: ds) =>
+    let mut acc := d
+    for x in ds do
+      let v ← if mulOp then pure (Quantity.mul chk acc.value x.value) else liftP (Quantity.add chk acc.value x.value)
+      acc := Datum.combine (fun _ _ => v) acc x
+    emit2 (sOut sQ (.ok (some acc)))
+
 def runSt (chk : Bool) (toks : List String) : M Unit := do
   match toks with
   | "and" :: [a, b] => emit2 (sOut sB (Stream.andStream (← need (pOut pB a)) (← need (pOut pB b))))
@@ -61,7 +74,19 @@ def runSt (chk : Bool) (toks : List String) : M Unit := do
     match ← need (pTy ty) with
     | .f => stArith cF (· + ·) (· * ·) (· - ·) (· / ·) op args
     | .b => stGeneric cB op args
-    | .q => stGeneric (mkQc chk) op args   -- Quantity payloads: only the type-generic combinators (no unit arithmetic here)
+    | .q =>
+      match op, args with
+      | "sum", n :: ins =>
+        let n ← need n.toNat?
+        if ins.length != n then throw .bad
+        if n < 1 then throw (.panic .arity)
+        stNaryQ chk false (← pOuts (mkQc chk) ins)
+      | "prod", n :: ins =>
+        let n ← need n.toNat?
+        if ins.length != n then throw .bad
+        if n < 1 then throw (.panic .arity)
+        stNaryQ chk true (← pOuts (mkQc chk) ins)
+      | _, _ => stGeneric (mkQc chk) op args
     | .s => stGeneric cS op args
     | .c => stGeneric cC op args
   | _ => noimpl
